@@ -104,6 +104,14 @@ class CallMixin:
         if op == "BoundMethod":
             inst, f = fn.args
             return self.call(f, [inst] + list(pos), kw, st, fr, site, expr)
+        if op == "Call" and fn.args and fn.args[0].op == "Ext" and fn.args[0].attr == "functools.partial" and \
+                len(fn.args) >= 2:
+            # partial(f, *a, **k)(*b, **l) == f(*a, *b, **{**k, **l})
+            npos, kwn = fn.attr[1], fn.attr[2]
+            inner = fn.args[1]
+            ppos = list(fn.args[2:1 + npos])
+            pkw = dict(zip(kwn, fn.args[1 + npos:]))
+            return self.call(inner, ppos + list(pos), {**pkw, **kw}, st, fr, site, expr)
         if op == "PlotWrap":
             kw2 = {k: v for k, v in kw.items() if k != "plot"}
             if "plot" in kw:
@@ -566,6 +574,27 @@ class CallMixin:
                         return self.mk("Tuple", cols, None, site)
                 return self.mk("ZipStar", (inner,), None, site)
             return self.mk("Zip", P, None, site)
+        if q == "builtins.next" and len(P) in (1, 2) and not kw and P[0].op == "CondList":
+            # first element whose filter holds, else the default
+            pairs = list(zip(P[0].args[0::2], P[0].args[1::2]))
+            if len(P) == 2:
+                out = P[1]
+            else:
+                out = self.unknown("next-exhausted", site)
+            for cn, el in reversed(pairs):
+                t = self.truth(cn)
+                if t is True:
+                    out = el
+                elif t is False:
+                    continue
+                else:
+                    out = self.phi(cn, el, out, site)
+            return out
+        if q == "builtins.next" and len(P) in (1, 2) and not kw and P[0].op in ("List", "Tuple"):
+            if P[0].args:
+                return P[0].args[0]
+            if len(P) == 2:
+                return P[1]
         if q in ("itertools.starmap", "builtins.map") and len(P) >= 2 and not kw:
             # sequential element-wise map: one call of f per element, results kept in input order
             f = P[0]
